@@ -297,9 +297,38 @@ func (p *printer) subshell(x *ast.Subshell) {
 		p.newline()
 		p.indent()
 	} else {
+		if p.paren(x.List[0]) {
+			// "((" is the arithmetic evaluation operator
+			p.space()
+		}
 		p.command(x.List[0])
 	}
 	p.w.WriteByte(')')
+}
+
+// paren reports whether the output of c begins with "(".
+func (p *printer) paren(c ast.Command) bool {
+	for {
+		switch x := c.(type) {
+		case ast.List:
+			c = x[0]
+		case *ast.AndOrList:
+			c = x.Pipeline
+		case *ast.Pipeline:
+			if !x.Bang.IsZero() {
+				return false
+			}
+			c = x.Cmd
+		case *ast.Cmd:
+			switch x.Expr.(type) {
+			case *ast.Subshell, *ast.ArithEval:
+				return true
+			}
+			return false
+		default:
+			return false
+		}
+	}
 }
 
 func (p *printer) group(x *ast.Group) {
@@ -651,6 +680,10 @@ func (p *printer) cmdSubst(w *ast.CmdSubst) {
 		p.newline()
 		p.indent()
 	} else {
+		if w.Dollar && p.paren(w.List[0]) {
+			// "$((" is the arithmetic expansion operator
+			p.space()
+		}
 		p.command(w.List[0])
 	}
 	if w.Dollar {
